@@ -290,4 +290,30 @@ def Link.recv (l : Link) (chunk : Bytes) (rnd : Nat → Nat := fun _ => Consts.F
   let (d, rest, pkts, err) := decodeLoop (linkCrypto l.keys.dec rnd) (buf.length + 2) l.dec buf []
   ({ l with dec := d, rxBuf := rest, dead := l.dead || err.isSome }, pkts, err)
 
+/-! ## a man in the middle who knows only the public bridge line (C02) -/
+
+structure Forged where
+  yRepr : Bytes
+  auth : Bytes
+  keySeed : Bytes
+  rest : Bytes
+deriving Repr
+
+/-- what an impostor can compute for the client representative `xRepr`: an own ephemeral key pair
+    (from the tape), DH with its **own** identity private key `bPriv`, and the ntor tags over a
+    transcript naming the identity public key `bTranscript` (its own, or the genuine public one) -/
+def forgeNtor (nodeID bTranscript bPriv xRepr tape : Bytes) : Option Forged :=
+  match newKeypair keypairFuel tape with
+  | none => none
+  | some (kp, rest) =>
+    let X := Prims.real.reprToPublic xRepr
+    let exps := Prims.real.x25519 kp.priv X ++ Prims.real.x25519 bPriv X
+    let (ks, auth) := Ntor.ntorCommon Prims.real.toPrims exps nodeID bTranscript X kp.pub
+    some ⟨kp.repr, auth, ks, rest⟩
+
+/-- anyone who knows `B` and `NODEID` can wrap arbitrary `Y' ‖ AUTH ‖ P_S` into a response with a
+    valid mark and MAC -/
+def forgeBlob (nodeID idPub yRepr auth pad : Bytes) (hour : Int) : Bytes :=
+  serverBlob Prims.real idPub nodeID yRepr auth pad hour
+
 end O4.Ref
